@@ -20,6 +20,7 @@ namespace Flow
 mutual
 inductive LStmt where
   | assign (x : Nat) (l : Lit)
+  | assignVar (x : Nat) (y : Nat)
   | probe (id : Nat) (x : Nat)
   | ite (c : Cond) (thn : LBlock) (rest : LElse)
   | whileDo (c : Cond) (body : LBlock)
@@ -60,6 +61,7 @@ mutual
 def LStmt.exec : Nat → Env → LStmt → Option Out
   | 0, _, _ => none
   | _ + 1, ρ, .assign x l => some ⟨ρ.set x l.val, [], false⟩
+  | _ + 1, ρ, .assignVar x y => some ⟨ρ.set x (ρ.get y), [], false⟩
   | _ + 1, ρ, .probe id x => some ⟨ρ, [(id, x, ρ.get x)], false⟩
   | fuel + 1, ρ, .ite c thn rest => if c.eval ρ then LBlock.exec fuel ρ thn else LElse.exec fuel ρ rest
   | fuel + 1, ρ, .whileDo c body =>
@@ -132,6 +134,7 @@ def LProg.run (p : LProg) (fuel : Nat) : Option (List Obs) := (LBlock.exec fuel 
 mutual
 def LStmt.assigns (x : Nat) : LStmt → Bool
   | .assign y _ => x == y
+  | .assignVar y _ => x == y
   | .probe _ _ => false
   | .ite _ thn rest => thn.assigns x || rest.assigns x
   | .whileDo _ b => b.assigns x
@@ -164,6 +167,7 @@ structure AOut where
 mutual
 def LStmt.aexec (nv : Nat) (declOf : Nat → Atom) (cur : Pt) : LStmt → AOut
   | .assign x l => ⟨.node (assignNode nv declOf x l.ty cur), [], []⟩
+  | .assignVar x y => ⟨.node (assignVarNode nv declOf x y cur), [], []⟩
   | .probe id x => ⟨.node (passNode nv cur), [(id, x, cur.typeOf x)], []⟩
   | .ite c thn rest =>
     let e := c.edges nv cur
